@@ -12,7 +12,8 @@
     2^64 / 2^32, so a larger number would alias the order of its residue). *)
 From Coq Require Import ZArith NArith List Bool Sorted.
 Import ListNotations.
-From PV Require Import Exchange.KV Exchange.Index Exchange.Paging Proofs.C13Glue.
+From PV Require Import Exchange.KV Exchange.Index Exchange.Paging Exchange.Commit Proofs.C13Glue Proofs.PagingSdkProofs
+  Proofs.CommitProofs.
 Open Scope N_scope.
 
 (** Every open order is fetchable by id (that is [open]) and is listed exactly once (strictly
@@ -195,6 +196,223 @@ Theorem C13_paging_payments_refuted :
                 (length got < length l)%nat.
 Proof. exact sdk_paging_refuted. Qed.
 Print Assumptions C13_paging_payments_refuted.
+
+(** ---- query.FilteredPaginate (GetAllOrders, GetAllMarkets) and query.Paginate ---- *)
+
+(** query.FilteredPaginate: in key mode NextKey is the next ENTRY after [limit] hits (not the next
+    hit as in filteredPaginateAfterOrder), in offset mode it is the key of hit number
+    offset+limit+1.  For every strictly sorted prefix store whose keys are non-empty, every hit
+    test, every limit >= 1 and both directions: following next_key, and paging by offsets, return
+    every matching entry exactly once in order, and count_total is their number. *)
+Theorem C13_paging_complete_sdk_filtered : forall V (hit : key -> V -> bool) (l : list (key * V))
+    (limit : N) (reverse : bool) (fuel : nat),
+  sorted_keys l ->
+  (forall k v, In (k, v) l -> k <> []) ->
+  1 <= limit ->
+  N.of_nat (length l) + limit + 1 < two64 ->
+  (length l < fuel)%nat ->
+  follow_keys (fun rq => sdk_filtered_paginate hit l rq) fuel limit reverse []
+    = Some (matching hit l reverse 0) /\
+  follow_offsets (fun rq => sdk_filtered_paginate hit l rq) fuel limit reverse 0
+    = Some (matching hit l reverse 0) /\
+  (exists items next,
+     sdk_filtered_paginate hit l
+       {| pr_key := []; pr_offset := 0; pr_limit := limit; pr_count_total := true;
+          pr_reverse := reverse |}
+     = Some (items, {| ps_next := next; ps_total := N.of_nat (length (matching hit l reverse 0)) |})).
+Proof. exact sdk_filtered_paging_complete. Qed.
+Print Assumptions C13_paging_complete_sdk_filtered.
+
+(** ... and GetAllOrders of every reachable state meets those hypotheses: every entry under the
+    order prefix has an 8-byte key and is a hit, so paging GetAllOrders returns every open order
+    exactly once, in id order (or reversed), with the exact total. *)
+Theorem C13_paging_complete_all_orders : forall ops limit reverse fuel,
+  let l := pstore (run ops) p_all_orders in
+  N.of_nat (length ops) < u64max ->
+  1 <= limit ->
+  N.of_nat (length l) + limit + 1 < two64 ->
+  (length l < fuel)%nat ->
+  follow_keys (fun rq => sdk_filtered_paginate all_orders_hit l rq) fuel limit reverse []
+    = Some (if reverse then rev l else l) /\
+  follow_offsets (fun rq => sdk_filtered_paginate all_orders_hit l rq) fuel limit reverse 0
+    = Some (if reverse then rev l else l) /\
+  (exists items next,
+     sdk_filtered_paginate all_orders_hit l
+       {| pr_key := []; pr_offset := 0; pr_limit := limit; pr_count_total := true; pr_reverse := reverse |}
+     = Some (items, {| ps_next := next; ps_total := N.of_nat (length l) |})).
+Proof. exact paging_complete_all_orders. Qed.
+Print Assumptions C13_paging_complete_all_orders.
+
+(** query.Paginate reports the exact number of entries as count_total ... *)
+Theorem C13_paginate_count_total : forall V (l : list (key * V)) (limit : N) (reverse : bool),
+  1 <= limit ->
+  exists items next,
+    sdk_paginate l {| pr_key := []; pr_offset := 0; pr_limit := limit; pr_count_total := true;
+                      pr_reverse := reverse |}
+    = Some (items, {| ps_next := next; ps_total := N.of_nat (length l) |}).
+Proof. exact sdk_paginate_count_total. Qed.
+Print Assumptions C13_paginate_count_total.
+
+(** ... the all-payments and payments-with-target listings of every reachable state have no empty
+    prefix-store key, so they page completely in both directions (the known finding is confined to
+    payments-with-SOURCE) ... *)
+Theorem C13_paging_complete_payments_all_target : forall ops p limit reverse fuel,
+  let l := pstore (run ops) p in
+  (p = p_all_pay \/ exists t, p = p_tgt t) ->
+  1 <= limit ->
+  N.of_nat (length l) + limit + 1 < two64 ->
+  (length l < fuel)%nat ->
+  follow_keys (fun rq => sdk_paginate l rq) fuel limit reverse [] = Some (if reverse then rev l else l) /\
+  follow_offsets (fun rq => sdk_paginate l rq) fuel limit reverse 0 = Some (if reverse then rev l else l).
+Proof. exact paging_complete_payments_all_target. Qed.
+Print Assumptions C13_paging_complete_payments_all_target.
+
+(** ... and in the FORWARD direction query.Paginate is complete for every sorted prefix store, an
+    empty key included (only the first entry can have it and a forward next_key is never the first
+    entry): the payments-with-source finding is confined to reverse paging. *)
+Theorem C13_paging_payments_forward_complete : forall V (l : list (key * V)) (limit : N) (fuel : nat),
+  sorted_keys l -> 1 <= limit -> N.of_nat (length l) + limit + 1 < two64 -> (length l < fuel)%nat ->
+  follow_keys (fun rq => sdk_paginate l rq) fuel limit false [] = Some l /\
+  follow_offsets (fun rq => sdk_paginate l rq) fuel limit false 0 = Some l.
+Proof. exact sdk_paging_complete_forward. Qed.
+Print Assumptions C13_paging_payments_forward_complete.
+
+(** ---- the maximum page limit (2^64-1, the SDK's PaginationMaxLimit) ---- *)
+
+(** With the clamp of commit 9f0ea4287, filteredPaginateAfterOrder with limit = 2^64-1 returns
+    EVERYTHING that is left after the offset in one page, with no next key and the exact total:
+    for every hit test (type filter), both directions, every after-order bound, every offset and
+    either count_total flag.  ([max_limit_req offset ct reverse] is the request with key = nil and
+    limit = 2^64-1.)  Key-mode requests do no arithmetic on the limit and are covered by
+    [C13_paging_complete]. *)
+Theorem C13_max_limit_one_page : forall V (hit : key -> V -> bool) (l : list (key * V))
+    (offset : N) (ct reverse : bool) (after : N),
+  N.of_nat (length l) < u64max -> offset < two64 ->
+  filtered_paginate_after_order hit l (max_limit_req offset ct reverse) after
+  = Some (skipn (N.to_nat offset) (matching hit l reverse after),
+          {| ps_next := [];
+             ps_total := if ct then N.of_nat (length (matching hit l reverse after)) else 0 |}).
+Proof. exact fpao_max_limit_one_page. Qed.
+Print Assumptions C13_max_limit_one_page.
+
+(** Before that commit ([end := offset + limit] and [end + 1] in plain uint64 arithmetic) the same
+    request returned NOTHING and a next key as soon as the first iterated entry was not a hit:
+    market 1 holding bid 1 and ask 2, type filter "bid", reverse (the finding's minimal history),
+    and the same with filter "ask" forward. *)
+Theorem C13_max_limit_unclamped_refuted :
+  exists ops p otype reverse,
+    let l := pstore (run ops) p in
+    matching (index_hit otype) l reverse 0 <> [] /\
+    exists next, next <> [] /\
+      filtered_paginate_after_order_unclamped (index_hit otype) l (max_limit_req 0 false reverse) 0
+      = Some ([], {| ps_next := next; ps_total := 0 |}).
+Proof. exact fpao_unclamped_refuted. Qed.
+Print Assumptions C13_max_limit_unclamped_refuted.
+
+(** ---- commitments and market ids (model Exchange/Commit.v) ---- *)
+
+(** Joint histories: ANY sequence of order, payment, commitment and market operations ([xop];
+    MsgGovCloseMarket acts on orders and commitments at once) decomposes into a history of
+    Exchange/Index.v and a history of Exchange/Commit.v, so every theorem above holds of
+    [fst (xrun xs)] and every theorem below of [snd (xrun xs)]. *)
+Theorem C13_joint_histories : forall xs,
+  fst (xrun xs) = run (flat_map proj_o xs) /\ snd (xrun xs) = crun (flat_map proj_c xs).
+Proof. exact (fun xs => conj (xrun_fst xs) (xrun_snd xs)). Qed.
+Print Assumptions C13_joint_histories.
+
+(** A market id identifies at most one market: over ALL histories of market creations (automatic
+    or explicit ids, also ids whose derived address already holds a foreign account), commitment
+    operations and closures, the ids handed out by successful creations are pairwise different, the
+    market listing (IterateKnownMarketIDs) is strictly ascending and lists exactly the created
+    ids, and every market's address holds an account. *)
+Theorem C13_market_ids : forall ops, let s := crun ops in
+  NoDup (markets_created_from cinit ops) /\
+  StronglySorted N.lt (known_markets (cs_kv s)) /\
+  (forall m, m < two32 -> (In m (known_markets (cs_kv s)) <-> In m (markets_created_from cinit ops))) /\
+  (forall m, In m (markets_created_from cinit ops) -> m < two32 /\ In m (cs_accts s)).
+Proof. exact market_ids. Qed.
+Print Assumptions C13_market_ids.
+
+(** Each successful creation uses an id that identified no market before, the requested id when
+    one was given, and never removes a market. *)
+Theorem C13_market_creation_fresh : forall ops id acc s' mid,
+  create_market (crun ops) id acc = Some (s', mid) ->
+  mid < two32 /\
+  ~ In mid (known_markets (cs_kv (crun ops))) /\
+  In mid (known_markets (cs_kv s')) /\
+  (id <> 0 -> mid = id) /\
+  (forall m, In m (known_markets (cs_kv (crun ops))) -> In m (known_markets (cs_kv s'))).
+Proof. exact create_market_fresh. Qed.
+Print Assumptions C13_market_creation_fresh.
+
+(** nextMarketID: the id it hands out is not in use, becomes the last automatic id, and (unless
+    the uint32 counter could wrap) is the SMALLEST unused id above the previous automatic id; its
+    loop terminates within (number of store entries + 1) iterations. *)
+Theorem C13_next_market_id : forall kv kv' mid,
+  next_market_id kv = Some (kv', mid) ->
+  mid < two32 /\ has kv (k_known mid) = false /\ last_market_id kv' = mid /\
+  (last_market_id kv + N.of_nat (length kv) + 1 < two32 ->
+     last_market_id kv < mid /\ forall j, last_market_id kv < j -> j < mid -> has kv (k_known j) = true).
+Proof. exact next_market_id_spec. Qed.
+Print Assumptions C13_next_market_id.
+
+Theorem C13_next_market_id_terminates : forall kv id,
+  sorted_keys kv -> id < two32 -> N.of_nat (length kv) < two32 ->
+  next_free (S (length kv)) kv id <> None.
+Proof. exact next_free_total. Qed.
+Print Assumptions C13_next_market_id_terminates.
+
+(** Commitments: after ANY history of commit / release / settle-commitments / close-market (and
+    market operations), GetMarketCommitments, GetAllCommitments and GetAccountCommitments list
+    exactly the non-zero entries of the commitment store ([get_commitment] = GetCommitment), each
+    (market, account) once, nothing else; every stored amount is a valid non-zero sdk.Coins and
+    its market exists. *)
+Theorem C13_commitments_consistent : forall ops, let kv := cs_kv (crun ops) in
+  (forall m, m < two32 ->
+     NoDup (map fst (market_commitments kv m)) /\
+     forall a c, In (a, c) (market_commitments kv m) <-> (a <> [] /\ c <> [] /\ get_commitment kv m a = c)) /\
+  (NoDup (map fst (all_commitments kv)) /\
+   (forall m a c, In (m, a, c) (all_commitments kv) -> m < two32) /\
+   forall m a c, m < two32 -> (In (m, a, c) (all_commitments kv) <-> (a <> [] /\ c <> [] /\ get_commitment kv m a = c))) /\
+  (forall a, a <> [] ->
+     NoDup (map fst (account_commitments kv a)) /\
+     forall m c, m < two32 -> (In (m, c) (account_commitments kv a) <-> (c <> [] /\ get_commitment kv m a = c))) /\
+  (forall m a, m < two32 -> a <> [] -> get_commitment kv m a <> [] ->
+     cvalid (get_commitment kv m a) = true /\ In m (known_markets kv)).
+Proof. exact commitments_consistent. Qed.
+Print Assumptions C13_commitments_consistent.
+
+(** Paging the commitment listings (query.Paginate over the all-commitments or a per-market prefix
+    store of any reachable state): following next_key and paging by offsets both return every
+    entry exactly once in order, in both directions, and every entry yields exactly one listed
+    commitment (so the pages concatenate to the complete listing and a page holds [limit] items). *)
+Theorem C13_paging_complete_commitments : forall ops p limit reverse fuel,
+  let l := pstore (cs_kv (crun ops)) p in
+  (p = p_commit_all \/ exists m, p = p_commit_mkt m) ->
+  1 <= limit -> N.of_nat (length l) + limit + 1 < two64 -> (length l < fuel)%nat ->
+  follow_keys (fun rq => sdk_paginate l rq) fuel limit reverse [] = Some (if reverse then rev l else l) /\
+  follow_offsets (fun rq => sdk_paginate l rq) fuel limit reverse 0 = Some (if reverse then rev l else l).
+Proof. exact paging_complete_commitments. Qed.
+Print Assumptions C13_paging_complete_commitments.
+
+Theorem C13_commitment_entries_listed : forall ops, let kv := cs_kv (crun ops) in
+  (forall m e, m < two32 -> In e (pstore kv (p_commit_mkt m)) -> exists a c, commitment_of_entry e = [(a, c)]) /\
+  (forall e, In e (pstore kv p_commit_all) -> exists m a c, commitment_of_entry_all e = [(m, a, c)]).
+Proof. exact commitment_entries_listed. Qed.
+Print Assumptions C13_commitment_entries_listed.
+
+(** Non-vacuity for the commitment / market part: the example history creates markets 1, 2 (auto)
+    and 5 (explicit), is refused the automatic id 3 (a foreign account sits on its address) and a
+    second market 5, and ends with commitments in markets 1 and 5 after a release, a settlement
+    and the closure of market 2. *)
+Example C13_commitments_nonvacuous :
+  let s := crun example_chistory in
+  markets_created_from cinit example_chistory = [1; 2; 5] /\
+  known_markets (cs_kv s) = [1; 2; 5] /\
+  market_commitments (cs_kv s) 1 = [([1;1;1], [(aaa, 5%Z)]); ([2;2;2], [(bbb, 11%Z)])] /\
+  account_commitments (cs_kv s) [1;1;1] = [(1, [(aaa, 5%Z)]); (5, [(aaa, 1%Z)])] /\
+  market_commitments (cs_kv s) 2 = [].
+Proof. exact example_chistory_ok. Qed.
 
 (** Non-vacuity: a concrete history (two markets, denoms "aaa"/"aaab", a partial fill, an
     external-id change, a cancellation) reaches a state with open orders whose listings are
